@@ -237,6 +237,24 @@ func (c *Ctx) Load() error {
 			c.loadErr = fmt.Errorf("type/load errors in repo: %s", strings.Join(errs, "; "))
 			return
 		}
+		// The rules take the published google.golang.org/protobuf (and the other dependencies) as the reference
+		// semantics; a dependency substituted by a local copy (replace directive, vendor directory) is outside what was read.
+		seenMod := map[string]bool{}
+		packages.Visit(pkgs, nil, func(p *packages.Package) {
+			if p.Module == nil || p.Module.Main || seenMod[p.Module.Path] {
+				return
+			}
+			seenMod[p.Module.Path] = true
+			if p.Module.Replace != nil {
+				c.Undec("LOAD", "dependency replaced: "+p.Module.Path, "module "+p.Module.Path+" is replaced by "+p.Module.Replace.Path+"; the rules assume the published module", "go.mod", "S0")
+			}
+			if p.Module.Dir != "" && strings.HasPrefix(p.Module.Dir, c.Repo+"/") {
+				c.Undec("LOAD", "dependency inside repository: "+p.Module.Path, "module "+p.Module.Path+" is loaded from "+p.Module.Dir, "go.mod", "S0")
+			}
+		})
+		if _, err := os.Stat(filepath.Join(c.Repo, "vendor", "modules.txt")); err == nil {
+			c.Undec("LOAD", "vendor directory", "the repository vendors its dependencies: the test suite would build against vendor/ while the rules assume the published modules", "vendor/modules.txt", "S0")
+		}
 		sort.Slice(pkgs, func(i, j int) bool { return pkgs[i].PkgPath < pkgs[j].PkgPath })
 		for _, p := range pkgs {
 			// the analysis sees one build configuration: a file that is compiled only under some other GOOS/GOARCH/tag
